@@ -53,8 +53,8 @@ func buildPlan(id string, pinned map[string]string, tier string) *Plan {
 		}
 		p.Trusted = []string{"pinned moduli in /verif/contracts/params.json", "axiomatic semantics of encoding/binary big/little-endian accessors"}
 		p.Trusted = append(p.Trusted, "AsyncReadFrom: the go statement is executed as a call where the goroutine is started, execute(n, work) as work(0, n) (independence of the iterations assumed), the channel is an opaque object whose sends and closes are events (blocking and the receiving side are not modelled), the unsafe byte view of the vector is a separate slice with arbitrary contents (nothing is said about the contents of the vector)")
-		p.Trusted = append(p.Trusted, "SetString: the parser of math/big (big.Int.SetString with base 0) is a pair of uninterpreted functions of the characters (accepts / value); Element.SetBigInt enters through its assumed contract (z = v mod q); the big.Int pool is an opaque call")
-		p.NotCovered = []string{"SetBytes / SetBigInt / BigInt / Text / JSON (math/big, strconv): not under contract (SetBigInt: assumed contract)", "Vector AsyncReadFrom: that the elements stored are the decoded values, the byte counter and the interleavings of its goroutines are not under contract (its index safety, its error reporting and the closing of its channel are); Vector MarshalBinary / UnmarshalBinary: not under contract; of ReadFrom / WriteTo the decoded values are not stated (the reader is opaque), only acceptance-implies-check and the byte counts"}
+		p.Trusted = append(p.Trusted, "SetString: the parser of math/big (big.Int.SetString with base 0) is a pair of uninterpreted functions of the characters (accepts / value); Element.SetBigInt enters through its contract (z = v mod q), which is proved in the same group: SetBigInt / setBigInt with big.Int.Bits as the normalised little-endian word slice of |v| (documented meaning of math/big), big.Int.Mod as SMT-LIB's mod, the modulus read off the package initialiser; the big.Int pool is an opaque call")
+		p.NotCovered = []string{"SetBytes / BigInt / Text / JSON (math/big, strconv): not under contract", "Vector AsyncReadFrom: that the elements stored are the decoded values, the byte counter and the interleavings of its goroutines are not under contract (its index safety, its error reporting and the closing of its channel are); Vector MarshalBinary / UnmarshalBinary: not under contract; of ReadFrom / WriteTo the decoded values are not stated (the reader is opaque), only acceptance-implies-check and the byte counts"}
 		p.Note = "Canonical byte decoders accept exactly encodings below q; encoders and decoders are mutually inverse (lemma functions verified from the two contracts); integer setters produce the residue mod q; comparisons act on the regular value; SetString accepts exactly the strings math/big accepts in base 0, sets the residue mod q of the integer they denote, and otherwise returns (nil, error) with z untouched. Vector.ReadFrom returns nil only if the length prefix and every element buffer were read completely and every element decoder accepted its buffer, and then reports 4 + Bytes*len bytes; Vector.WriteTo returns nil only if every write succeeded, and then reports 4 + Bytes*len bytes. Vector.AsyncReadFrom (23 fields, portable build): for every reader and every announced length neither the function nor its conversion goroutine indexes or slices out of range (the byte view of the payload has Bytes bytes per element visited: the obligation that failed on the pinned tree, finding F40), an element that is not below the modulus is counted and a non-nil error is then sent on the channel, a synchronous error is never followed by a send, and the channel is closed exactly once; execute, the field packages' copy of parallel.Execute, hands its goroutines contiguous ranges that partition [0, n)."
 		return p
 	case "C02":
@@ -97,7 +97,7 @@ func buildPlan(id string, pinned map[string]string, tier string) *Plan {
 		p.Trusted = []string{
 			"module layer: the point types are elements of an abstract abelian group (integer indeterminates, Z-lifting); AddAssign / AddMixed / Double / DoubleAssign / Neg / Set / FromAffine / FromJacobian are interpreted as the group operations their names state (the coordinate formulas are proved against the chord-and-tangent law under C02), the package-level infinity is the neutral element",
 			"the endomorphism phi acts on the operands as multiplication by a fixed integer lambda (curve theory; assumed), and the two vectors of the precomputed lattice basis are in the kernel of (a, b) -> a + b*lambda mod r (stated as the precondition of mulGLV and of the entry points built on it; the basis is computed at package initialisation by ecc.PrecomputeLattice, which is not under contract)",
-			"math/big integers are mathematical integers; Bytes() yields the big-endian bytes of |x|; Element.SetBigInt (sync.Pool, big.Int.Bits) is an assumed contract: z = v mod r",
+			"math/big integers are mathematical integers; Bytes() yields the big-endian bytes of |x|; Element.SetBigInt: z = v mod r (its contract is proved under C08, group bigconv; here it is applied at the call sites)",
 			"arithmetic lemma x div a = b*(x div ab) + (x div a) mod b: every instance used is proved as its own obligation"}
 		p.Assumptions = []string{"where the code reduces a scalar modulo the group order (SetBigInt) the clause states the result with the reduced scalar bigmod(|s|, r) and the sign of s: this is the s-fold multiple for operands of order dividing r (the property's own hypothesis: points of the prime-order subgroup)",
 			"a1, a2, s1, s2 of JointScalarMultiplication are never written (frame proved), so aliasing among them is covered by equal values (alias none)"}
@@ -269,7 +269,7 @@ func buildPlan(id string, pinned map[string]string, tier string) *Plan {
 			"documented defining polynomials of the towers (BETA, XI in gcv/gen_tower.go)"}
 		p.Assumptions = []string{"Inverse contracts state x*z == N(x)*inv(N(x)) embedded in the base ring (N = norm down one level); that N(x)*inv(N(x)) == 1 for x != 0 needs 'the base ring is a field and the norm of a non-zero element is non-zero', which is not proved here",
 			"inv() of the innermost layer is fp.Element.Inverse, interpreted (not proved) at the ring layer: its own addition chain is outside the contracts"}
-		p.NotCovered = []string{"BatchInvert / Sqrt / Legendre of the tower types and the bit-by-bit Exp of E2 / E4: not under contract (Div is, at every level; Exp of the target-group type E12 / E24 / E6 is: z = x^k for every integer k, 2-bit windows, each window its own obligation)",
+		p.NotCovered = []string{"BatchInvert / Sqrt / Legendre of the tower types and (Div is under contract at every level; Exp is, for every extension type that has one - E12 / E24 / E6 with 2-bit windows, E2 / E4 of the towers and of the small-field extensions bit by bit -: z = x^k for every integer k, every window / bit its own obligation)",
 			"Frobenius maps, cyclotomic and compressed squarings, torus compression, Expt/ExpGLV chains: not under contract",
 			"bw6-633 / bw6-761 (E3 = Fp[u]/(u^3 - nr), E6 = E3[v]/(v^2 - u)): Add/Sub/Double/Neg/Mul/Square/Inverse/MulByNonResidue/MulByElement/Conjugate, the sparse products MulBy01/1/12/014/01245, Mul01By01, Mul014By014 and the value of nr (fp.MulByNonResidue) are under contract; their cyclotomic/compressed squarings, Frobenius, Expt chains, torus compression and the direct sextic representation (E6D) are not",
 			"small-field extensions (koalabear / babybear E2, E4; goldilocks E2): Add/Sub/Double/Neg/Conjugate/Mul/Square/Inverse/MulByNonResidue/MulByElement/MulByE2/norm are under contract with the documented quadratic non-residues 3 / 11 / 7; Div, Sqrt, Legendre, Exp, Halve, BatchInvert, MulAccE4 (AVX-512) are not",
